@@ -3,15 +3,22 @@
 Tie to the source:
   (1) facts regenerated from src/mxlpy/parallel.py + src/mxlpy/scan.py into
       coq/cachefs/GenCacheFacts.v: the SAVE PROTOCOL of _pickle_save (direct write into the final
-      path / temporary file in the same directory + os.replace), the shape of _load_or_run,
-      _pickle_load, _pickle_name, the Cache defaults, and the wiring of the cache through
-      parallelise and the four scan functions.  PropsC19.v pins them;
+      path / temporary file in the same directory + os.replace / replace before the close), the
+      DEFAULT NAME FUNCTION _pickle_name (f"{k}.p" | f"{k!r}.p" | f"{hash(k)}.p"), the shape of
+      _load_or_run, _pickle_load, the Cache defaults, and the wiring of the cache through
+      parallelise and the four scan functions.  PropsC19.v pins them against
+      coq/cachefs/ExpectedFacts.v (hand-maintained switch: which name function the tree is expected
+      to carry -- NameStr = the snapshot with the recorded finding C19-name-collision, NameRepr =
+      after fixes/C19-name-fn.diff; tools/c19_switch.py);
   (2) correspondence by FAULT INJECTION on the real code: harness/c19_driver.py (its own
       interpreter, one forked child per run) kills a caching run at every instant at which the
       directory can differ -- before/after every open/close/replace and after every byte of a
       result file -- then reruns.  The directory content after the kill, the rerun's outcome, its
       number of fn calls and the directory after it are compared with what the Gallina model
-      (evaluated by vm_compute inside Coq with the regenerated protocol fact) predicts;
+      (evaluated by vm_compute inside Coq with the regenerated protocol fact) predicts -- with
+      unbuffered file objects (every byte offset) and with file objects that keep the bytes in user
+      space until close() (the model's flush policies pol_through / pol_buffered); the file name
+      the implementation uses for every key is compared with the Gallina model of str()/repr();
   (3) an independent oracle judges the PROPERTY on the implementation: cached == uncached ==
       own evaluation of the function, second run makes no call and writes nothing, every rerun
       after every kill returns the uncached results for every key (then again without calls).
@@ -42,8 +49,13 @@ PROP = "C19"
 # (1) fact extraction (fail-closed)
 # ---------------------------------------------------------------------------------------
 
+_NAME_KINDS = {
+    "return f'{k}.p'": "NameStr",
+    "return f'{k!r}.p'": "NameRepr",
+    "return f'{hash(k)}.p'": "NameHash",
+}
+
 _SHAPES = {
-    "_pickle_name": "return f'{k}.p'",
     "_pickle_load": "with file.open('rb') as fp:\n    return pickle.load(fp)",
     "_load_or_run": (
         "k, v = inp\nif cache is None:\n    res = fn(v)\nelse:\n    file = cache.tmp_dir / cache.name_fn(k)\n"
@@ -66,14 +78,26 @@ def _classify_save(fn: ast.FunctionDef | None) -> str:
         return "SaveUnknown"
     b = _body(fn)
 
-    def dump_with(w: ast.stmt, target: str) -> bool:
+    def with_on(w: ast.stmt, target: str) -> bool:
         return (
             isinstance(w, ast.With)
             and len(w.items) == 1
             and ast.unparse(w.items[0].context_expr) == f"{target}.open('wb')"
             and w.items[0].optional_vars is not None
             and ast.unparse(w.items[0].optional_vars) == "fp"
-            and [ast.unparse(s) for s in w.body] == ["pickle.dump(data, fp)"]
+        )
+
+    def dump_with(w: ast.stmt, target: str) -> bool:
+        return with_on(w, target) and [ast.unparse(s) for s in w.body] == ["pickle.dump(data, fp)"]
+
+    def is_dump(s: ast.stmt) -> bool:
+        # pickle.dump(data, fp) possibly with a protocol= keyword (the bytes differ, the protocol of writing does not)
+        return (
+            isinstance(s, ast.Expr)
+            and isinstance(s.value, ast.Call)
+            and ast.unparse(s.value.func) == "pickle.dump"
+            and [ast.unparse(a) for a in s.value.args] == ["data", "fp"]
+            and all(k.arg == "protocol" for k in s.value.keywords)
         )
 
     if len(b) == 1 and dump_with(b[0], "file"):
@@ -106,11 +130,26 @@ def _classify_save(fn: ast.FunctionDef | None) -> str:
         moved = isinstance(b[2], ast.Expr) and ast.unparse(b[2].value) in (f"os.replace({tmp}, file)", f"{tmp}.replace(file)")
         if tmp != "file" and same_dir and dump_with(b[1], tmp) and moved:
             return "SaveTempReplace"
+    if len(b) == 2 and isinstance(b[0], ast.Assign) and len(b[0].targets) == 1 and isinstance(b[0].targets[0], ast.Name):
+        # the replace INSIDE the with block: the final name is published before the handle is closed
+        tmp = b[0].targets[0].id
+        w = b[1]
+        if (
+            tmp != "file"
+            and isinstance(b[0].value, ast.Call)
+            and ast.unparse(b[0].value.func) == "file.with_name"
+            and with_on(w, tmp)
+            and len(w.body) == 2
+            and is_dump(w.body[0])
+            and isinstance(w.body[1], ast.Expr)
+            and ast.unparse(w.body[1].value) in (f"os.replace({tmp}, file)", f"{tmp}.replace(file)")
+        ):
+            return "SaveReplaceOpen"
     return "SaveUnknown"
 
 
 def extract_facts() -> dict[str, Any]:
-    facts: dict[str, Any] = {"save": "SaveUnknown", "load_or_run": False, "wiring": False, "why": []}
+    facts: dict[str, Any] = {"save": "SaveUnknown", "load_or_run": False, "wiring": False, "name": "NameUnknown", "why": []}
     try:
         tree = ast.parse((common.REPO / "src/mxlpy/parallel.py").read_text())
         scan = ast.parse((common.REPO / "src/mxlpy/scan.py").read_text())
@@ -119,6 +158,11 @@ def extract_facts() -> dict[str, Any]:
         return facts
     fns = {n.name: n for n in tree.body if isinstance(n, ast.FunctionDef)}
     facts["save"] = _classify_save(fns.get("_pickle_save"))
+    pn = fns.get("_pickle_name")
+    if pn is not None and [a.arg for a in pn.args.args] == ["k"]:
+        facts["name"] = _NAME_KINDS.get(_norm(pn), "NameUnknown")
+    if facts["name"] == "NameUnknown":
+        facts["why"].append("_pickle_name has an unrecognised shape")
     ok = True
     for name, shape in _SHAPES.items():
         if name not in fns or _norm(fns[name]) != shape:
@@ -178,14 +222,27 @@ def extract_facts() -> dict[str, Any]:
     return facts
 
 
+def expected_name_kind() -> str:
+    """the hand-maintained switch coq/cachefs/ExpectedFacts.v: which default name function the tree is
+    expected to carry (NameStr: snapshot with the recorded finding; NameRepr: after fixes/C19-name-fn.diff)"""
+    import re
+
+    txt = (common.area_dir(AREA) / "ExpectedFacts.v").read_text()
+    m = re.search(r"Definition\s+C19_expected_name\s*:\s*name_kind\s*:=\s*(\w+)\s*\.", txt)
+    if not m or m.group(1) not in ("NameStr", "NameRepr"):
+        raise RuntimeError("coq/cachefs/ExpectedFacts.v: cannot read C19_expected_name")
+    return m.group(1)
+
+
 def gen() -> dict[str, Any]:
     f = extract_facts()
+    f["expected_name"] = expected_name_kind()
     text = (
         "(* REGENERATED from src/mxlpy/parallel.py (_pickle_save, _load_or_run, _pickle_load, _pickle_name, Cache,\n"
         "   parallelise) and src/mxlpy/scan.py by harness/c19.py; do not edit.  An unrecognised shape yields\n"
-        "   SaveUnknown / false, which breaks C19_facts_pinned. *)\n"
-        "From CacheFS Require Import CacheFS.\n"
-        f"Definition gen_cache_facts : cache_facts := mkCacheFacts {f['save']} {common.cbool(f['load_or_run'])} {common.cbool(f['wiring'])}.\n"
+        "   SaveUnknown / false / NameUnknown, which breaks C19_facts_pinned. *)\n"
+        "From CacheFS Require Import CacheKeys CacheFS.\n"
+        f"Definition gen_cache_facts : cache_facts := mkCacheFacts {f['save']} {common.cbool(f['load_or_run'])} {common.cbool(f['wiring'])} {f['name']}.\n"
     )
     common.write_if_changed(common.area_dir(AREA) / "GenCacheFacts.v", text)
     return f
@@ -276,11 +333,47 @@ def o_canon(v: Any) -> Any:
 
 def key_py(k: dict) -> Any:
     t, v = k["t"], k["v"]
+    if t == "none":
+        return None
     return {"int": int, "str": str, "float": float, "bool": bool}[t](v) if t != "tuple" else tuple(key_py(x) for x in v)
 
 
+NAME_MODE = ["NameStr"]  # set by check()/replay() from ExpectedFacts.v
+
+
 def final_name(k: dict) -> str:
-    return f"{key_py(k)}.p"  # what the documented default name_fn produces
+    """what the documented default name_fn produces (own implementation, by the expected kind)"""
+    return f"{key_py(k)!r}.p" if NAME_MODE[0] == "NameRepr" else f"{key_py(k)}.p"
+
+
+def coq_key(k: dict) -> str:
+    """a key as a term of CacheKeys.key (floats by the literal repr() prints: the model identifies a
+    float with that literal)"""
+    t, v = k["t"], k["v"]
+    if t == "int":
+        return f"(KInt {cz(int(v))})"
+    if t == "bool":
+        return f"(KBool {common.cbool(bool(v))})"
+    if t == "none":
+        return "KNone"
+    if t == "float":
+        return f"(K_float {common.cstr(repr(float(v)))})"
+    if t == "str":
+        s = str(v)
+        if all(32 <= ord(c) < 127 for c in s):
+            return f"(K_str {common.cstr(s)})"
+        assert all(ord(c) < 128 for c in s)
+        return "(KStr " + clist(f"(ascii_of_nat {ord(c)})" for c in s) + ")"
+    if t == "tuple":
+        return "(KTuple " + clist(coq_key(x) for x in v) + ")"
+    raise ValueError(t)
+
+
+def coq_string(s: str) -> str:
+    """a Coq string literal for an arbitrary 7-bit string"""
+    if all(32 <= ord(c) < 127 for c in s):
+        return common.cstr(s)
+    return "(string_of_list_ascii " + clist(f"(ascii_of_nat {ord(c)})" for c in s) + ")"
 
 
 def cfg_keys(cfg: dict) -> list[dict]:
@@ -331,18 +424,42 @@ def scenario(cfg: dict, sid: str, cache_dir: Path, side: Path, **kw) -> dict:
 EFFECT = {"open": 1, "replace": 1, "osopen": 1, "unlink": 1, "link": 1}
 
 
-def effects_done(events: list[dict], plan: dict | None) -> int:
+def _effect_list(events: list[dict], buffered: bool) -> list[int]:
+    """file-system effects of each event of a run, in the sense of the model (CacheFS.v: an effect is a step
+    that changes the directory).  Unbuffered handles: every written byte is one effect, a close none.
+    Buffered handles: a write changes nothing, the close drains the buffer -- one effect if anything was
+    written through that handle."""
+    out = []
+    pending: dict[tuple, int] = {}
+    for e in events:
+        hk = (e["pid"], e["path"])
+        if e["kind"] == "write":
+            if buffered:
+                pending[hk] = pending.get(hk, 0) + e["n"]
+                out.append(0)
+            else:
+                out.append(e["n"])
+        elif e["kind"] == "close":
+            out.append(1 if buffered and pending.pop(hk, 0) > 0 else 0)
+        else:
+            if e["kind"] == "open":
+                pending.pop(hk, None)
+            out.append(EFFECT.get(e["kind"], 0))
+    return out
+
+
+def effects_done(events: list[dict], plan: dict | None, buffered: bool = False) -> int:
     """file-system effects that HAPPENED in a killed run, from its own event log (an event is logged
     before it is performed; the last logged matching event is the one at which the process died)"""
+    effs = _effect_list(events, buffered)
     if plan is None:
-        return sum(e["n"] if e["kind"] == "write" else EFFECT.get(e["kind"], 0) for e in events)
-    ms = [e for e in events if e["path"].startswith(plan["match"])]
+        return sum(effs)
+    ms = [(e, n) for e, n in zip(events, effs) if e["path"].startswith(plan["match"])]
     if not ms:
         return 0
-    done = ms[:-1]
-    tot = sum(e["n"] if e["kind"] == "write" else EFFECT.get(e["kind"], 0) for e in done)
-    last = ms[-1]
-    if last["kind"] == "write" and 0 < plan.get("byte", 0) < last["n"]:
+    tot = sum(n for _e, n in ms[:-1])
+    last = ms[-1][0]
+    if not buffered and last["kind"] == "write" and 0 < plan.get("byte", 0) < last["n"]:
         tot += plan["byte"]
     return tot
 
@@ -491,21 +608,34 @@ def coq_case(ctx: Ctx, stages: list[tuple[dict, dict]]) -> tuple[str, list[str]]
     for pid, (sc, rep) in enumerate(stages, start=1):
         plan = sc.get("plan")
         killed = plan is not None and (rep.get("exit") in (77, -9) or (rep.get("result") or {}).get("exc") == "ProcessExpired")
+        buffered = bool(sc.get("buffered"))
         if plan is None or not killed:
             spec = "RPar" if sc.get("parallel") else "RSeq None"
         elif sc.get("parallel"):
             c = next(i for i, f in enumerate(ctx.finals) if f == plan["match"])
-            spec = f"RParExit {cnat(c)} {cn(effects_done(rep['events'], plan))}"
+            spec = f"RParExit {cnat(c)} {cn(effects_done(rep['events'], plan, buffered))}"
         else:
-            spec = f"RSeq (Some {cn(effects_done(rep['events'], plan))})"
+            spec = f"RSeq (Some {cn(effects_done(rep['events'], plan, buffered))})"
         finals, tmps, pr = observe_dir(ctx, rep["files"], owner, pid)
         probs += pr
         obs = (
             f"mkObs {common.cbool(not killed)} {coq_outcome(ctx, rep)} {cn(len(rep['calls']))} "
             f"{clist(map(c_oc, finals))} {clist(clist(map(c_oc, tmps[p])) for p in range(1, pid + 1))}"
         )
-        st_txt.append(f"({spec}, {obs})")
+        st_txt.append(f"({spec}, {common.cbool(buffered)}, {obs})")
     return f"({names}, {fns}, {sizes}, {items}, {clist(st_txt)})", probs
+
+
+def names_file(cases: list[str]) -> str:
+    """the default name function: key (as a term of the model's key universe) and the file name the
+    implementation used for it, compared with name_of (regenerated kind) evaluated inside Coq"""
+    return (
+        "From Coq Require Import List ZArith NArith Ascii String.\nImport ListNotations.\n"
+        "From MxlBase Require Import ListX.\nFrom CacheFS Require Import CacheKeys CacheFS GenCacheFacts CacheFSRun.\n"
+        "Definition ncases : list name_case := [\n  " + ";\n  ".join(cases) + "\n].\n"
+        "Definition mismatches := filter_idx (fun c => negb (name_case_ok (cf_name gen_cache_facts) c)) ncases.\n"
+        "Eval vm_compute in mismatches.\n"
+    )
 
 
 def corr_file(cases: list[str]) -> str:
@@ -533,6 +663,15 @@ def make_configs(rng, thorough: bool) -> list[dict]:
                  "parallel": False, "points": "all"})
     # H: negative int keys (hash(-1) == hash(-2) in CPython; their names differ)
     cfgs.append({"name": "H-negint-seq", "kind": "map", "fn": "affine", "items": [[ik(-1), 1], [ik(-2), 2], [ik(-3), 5]], "parallel": False, "points": "few"})
+    # N: keys whose str()/repr() need care: quotes, backslash, control characters, nested / empty / 1-tuples, None,
+    # bool, float literals with exponent / sign (ties the Gallina model of str()/repr() to the file names in use)
+    sk = lambda v: {"t": "str", "v": v}  # noqa: E731
+    cfgs.append({"name": "N-quoting-seq", "kind": "map", "fn": "sq", "parallel": False, "points": "few",
+                 "items": [[sk("it's"), 1], [sk('a"b'), 2], [sk("q'\""), 3], [sk("back\\slash"), 4], [sk("tab\there\x01"), 5],
+                           [{"t": "tuple", "v": []}, 6], [{"t": "tuple", "v": [ik(1)]}, 7],
+                           [{"t": "tuple", "v": [{"t": "tuple", "v": [ik(-3), sk("u")]}, {"t": "float", "v": 2.5}]}, 8],
+                           [{"t": "none", "v": None}, 9], [{"t": "bool", "v": True}, 10], [{"t": "float", "v": 1e16}, 11],
+                           [{"t": "float", "v": -0.0}, 12], [ik(10**20), 13], [sk("key"), 14], [sk("Key"), 15], [sk(" key"), 16]]})
     # C: pool, one worker dies (others finish); every crash point of every key
     cfgs.append({"name": "C-int-pool", "kind": "map", "fn": "affine", "items": [[ik(3), 1], [ik(4), 2], [ik(5), 3]], "parallel": True, "workers": 2, "points": "all"})
     # D: scan.steady_state through the cache, sequential; event boundaries + some byte offsets
@@ -600,16 +739,15 @@ def phase2_groups(cfg: dict, fresh: dict, root: Path, ci: int, rng, thorough: bo
                  scenario(cfg, "rerun", d / "cache", d, parallel=rerun_par),
                  scenario(cfg, "rerun2", d / "cache", d)]
             out.append(({"cfg": cfg["name"], "mode": "seq", "point": [i, j, lab]}, g))
-        # the same event boundaries with user-space buffering of the written bytes (oracle only: the
-        # micro-step model writes through): a protocol that publishes a file before closing it leaves an
-        # empty or truncated final file here
+        # the same event boundaries with user-space buffering of the written bytes (the model's pol_buffered):
+        # a protocol that publishes a file before closing it leaves an empty or truncated final file here
         for n, (i, j, lab) in enumerate(p for p in pts if p[1] == 0):
             d = root / f"c{ci}-b{n}"
             plan = {"match": "", "event": i, "byte": 0, "action": "exit"}
             g = [scenario(cfg, "crash", d / "cache", d, plan=plan, buffered=True),
                  scenario(cfg, "rerun", d / "cache", d),
                  scenario(cfg, "rerun2", d / "cache", d)]
-            out.append(({"cfg": cfg["name"], "mode": "seq-buffered", "point": [i, 0, lab], "no_corr": True}, g))
+            out.append(({"cfg": cfg["name"], "mode": "seq-buffered", "point": [i, 0, lab]}, g))
         # chains: kill, kill the rerun too, then rerun
         n_chain = 8 if thorough else 3
         for n in range(min(n_chain, len(pts))):
@@ -640,7 +778,7 @@ def phase2_groups(cfg: dict, fresh: dict, root: Path, ci: int, rng, thorough: bo
                     g = [scenario(cfg, "crash", d / "cache", d, plan=plan, buffered=True),
                          scenario(cfg, "rerun", d / "cache", d, parallel=(n % 2 == 1)),
                          scenario(cfg, "rerun2", d / "cache", d, parallel=False)]
-                    out.append(({"cfg": cfg["name"], "mode": "pool-exit-buffered", "key": ki, "point": [i, 0, lab], "no_corr": True}, g))
+                    out.append(({"cfg": cfg["name"], "mode": "pool-exit-buffered", "key": ki, "point": [i, 0, lab]}, g))
         # the whole process group is killed while one worker is mid-write (oracle only)
         for m in range(4 if thorough else 2):
             k = rng.choice(keys)
@@ -698,24 +836,37 @@ def collision_reproduces(reps: list[dict]) -> tuple[bool, str]:
 def check(run: Run) -> None:
     thorough = run.tier == "thorough"
     facts = gen()
+    NAME_MODE[0] = facts["expected_name"]
     run.coverage["gen_facts"] = facts
     run.rule = (
         "configurations: fixed small key sets (ints; str/tuple/float keys; structured results) + seeded random key sets, "
         "through parallelise(parallel=False), the pebble pool, scan.steady_state/time_course with cache=; for each, the run is "
         "killed before every open/close/replace/mkdir and after EVERY byte of every result file (sampled offsets for the ~2 kB scan "
         "pickles), by os._exit of the process (sequential), of one pool worker, or SIGKILL of the whole process group; then rerun "
-        "(sequential or pool) and rerun again; chains kill the rerun too.  A case is one kill-then-rerun group; non-trivial iff the "
+        "(sequential or pool) and rerun again; chains kill the rerun too; every event boundary again with file objects that buffer "
+        "until close(); a repeated run in a new interpreter with another hash salt.  Keys with quotes/backslashes/control characters, "
+        "nested tuples, None, bool, floats exercise the name function.  A case is one kill-then-rerun group; non-trivial iff the "
         "kill really happened mid-run"
     )
     proofs_ok = run.check_proofs(AREA, PROPS)
     run.assumptions += [
         "Coq 8.16.1 kernel + vm_compute; all C19 theorems closed under the global context (no axioms)",
-        "fact extractor harness/c19.py::extract_facts (fail-closed ast matcher: save protocol, _load_or_run shape, wiring)",
+        "fact extractor harness/c19.py::extract_facts (fail-closed ast matcher: save protocol, name function, _load_or_run shape, wiring); "
+        "coq/cachefs/ExpectedFacts.v is a hand-maintained switch (which name function the tree is expected to carry)",
         "modelled, not verified: POSIX rename atomicity (os.replace is one micro-step), open('wb') creates/truncates at once, "
         "a killed process leaves exactly the bytes written so far (process death, not power loss: no fsync semantics), "
         "pickle.load fails on every strict prefix of a pickle and succeeds on the whole, fn deterministic, "
         "pebble pool = arbitrary interleaving of independent _load_or_run calls, temp names never collide with result names",
-        "guard of the positive theorems: distinct keys have distinct file names (complement = known finding C19-name-collision)",
+        "NOT modelled and not claimed: power loss / kernel crash (no fsync step in the model, none in _pickle_save): the model's file system is what the kernel "
+        "has been handed, which survives the death of a process but not of the machine",
+        "user-space buffering: a flush policy pol (does the write handing over byte j reach the file at once) is universally quantified in the crash theorems; "
+        "a multi-byte flush is atomic for its policy (a kill inside it is the kill point of the policy that flushes there); close() drains",
+        "default name function: modelled over the key universe of CacheKeys.v (ints, bools, None, floats identified with the literal repr() prints -- float.__repr__ itself "
+        "is not modelled, only that the literal is non-empty, over 0-9.e+-infa and not an int literal --, 7-bit str with CPython's quoting/escaping, nested tuples); "
+        "numpy scalars, non-ASCII strings and user classes as keys are outside the universe; hash() of str = external salted function",
+        ("guard of the positive theorems: distinct keys have distinct file names (complement = known finding C19-name-collision; ExpectedFacts.v = NameStr)"
+         if facts["expected_name"] == "NameStr" else
+         "ExpectedFacts.v = NameRepr: C19_transparent (no guard on names) applies to the tree; the old f'{k}.p' collision is the regression theorem C19_str_names_collide_refuted"),
         "fault-injection driver harness/c19_driver.py (wrappers around io.open/os.replace/...), correspondence glue CacheFSRun.v, literal printer, coqc output parser",
     ]
 
@@ -730,6 +881,10 @@ def check(run: Run) -> None:
 
 def _check_body(run: Run, rng, root: Path, thorough: bool, n_drivers: int, proofs_ok: bool) -> None:
     cfgs = make_configs(rng, thorough)
+    repaired = NAME_MODE[0] == "NameRepr"
+    if repaired:
+        # with the repaired names the witness of the former finding is an ordinary configuration: every point
+        cfgs.append({**COLLISION_CFG, "points": "all"})
     known = {f["id"]: f for f in common.load_known_findings(PROP)}
     # ---- phase 1: transparency + second run, and the event structure of a clean run ----------
     p1 = [phase1_group(c, root, i) for i, c in enumerate(cfgs)] + [phase1_group(COLLISION_CFG, root, 999)]
@@ -738,6 +893,8 @@ def _check_body(run: Run, rng, root: Path, thorough: bool, n_drivers: int, proof
     coq_cases: list[tuple[str, str]] = []  # (label, text)
     n_viol = 0
     dist: dict[str, int] = {}
+    clean_stages: dict[str, tuple[Ctx, list]] = {}
+    name_cases: dict[tuple, str] = {}
 
     def violation(what: str, cfg: dict, scs: list[dict], meta: dict) -> None:
         nonlocal n_viol
@@ -774,14 +931,16 @@ def _check_body(run: Run, rng, root: Path, thorough: bool, n_drivers: int, proof
                 ent = fresh["files"].get(f)
                 if not isinstance(ent, dict) or "hex" not in ent or o_canon(pickle.loads(bytes.fromhex(ent["hex"]))) != ctx.expected[i][1]:
                     run.broken_correspondence.append(f"{cfg['name']}: after a clean run the file {f!r} does not hold the pickled result of key #{i}")
-        text, probs = coq_case(ctx, [(scs[1], fresh), (scs[2], second), (scs[3], second_o)])
-        for pb in probs:
-            run.broken_correspondence.append(f"{cfg['name']}: {pb}")
-        coq_cases.append((f"{cfg['name']}/clean", text))
+        clean_stages[cfg["name"]] = (ctx, [(scs[1], fresh), (scs[2], second), (scs[3], second_o)])
+        # the file name in use for every key against the model of str()/repr()
+        if cfg["kind"] == "map":
+            for i, (k, f) in enumerate(zip(ctx.keys, ctx.finals)):
+                if ctx.sizes[i] is not None and all(ord(c) < 128 for c in f):
+                    name_cases.setdefault((json.dumps(k, sort_keys=True), f), f"({coq_key(k)}, {coq_string(f)})")
     run.sample({"config": cfgs[0], "clean_run_events": [(e["kind"], e["path"], e["n"]) for e in p1_reps[0][1]["events"]]})
 
     # ---- a repeated run in a NEW interpreter (other string-hash salt) must hit the disk too ----
-    np_idx = [i for i, c in enumerate(cfgs) if c["kind"] == "map" and ctxs[i] is not None and ctxs[i].unc_value is not None][:4]
+    np_idx = [i for i, c in enumerate(cfgs) if c["kind"] == "map" and ctxs[i] is not None and ctxs[i].unc_value is not None][:5]
     if np_idx:
         np_scs = [scenario(cfgs[i], "second-newproc", root / f"p1-{i}" / "cache", root / f"p1-{i}") for i in np_idx]
         try:
@@ -798,23 +957,33 @@ def _check_body(run: Run, rng, root: Path, thorough: bool, n_drivers: int, proof
             elif rep["calls"]:
                 violation(f"{cfgs[i]['name']}: repeated run in a new interpreter (PYTHONHASHSEED=4242) recomputed {len(rep['calls'])} result(s) instead of reading them from disk",
                           cfgs[i], [p1[i][1], sc], {"mode": "second-run-new-interpreter"})
+            if cfgs[i]["name"] in clean_stages:
+                clean_stages[cfgs[i]["name"]][1].append((sc, rep))
+    for nm, (ctx, stages) in clean_stages.items():
+        text, probs = coq_case(ctx, stages)
+        for pb in probs:
+            run.broken_correspondence.append(f"{nm}: {pb}")
+        coq_cases.append((f"{nm}/clean", text))
 
     # ---- known finding: two keys with the same file name ---------------------------------------
     col_reps = p1_reps[-1]
     rep_ok, detail = collision_reproduces(col_reps)
-    if "C19-name-collision" in known:
-        if rep_ok:
+    if not repaired:
+        if "C19-name-collision" in known:
+            if rep_ok:
+                run.known("C19-name-collision", f"keys 1 and '1' share the file '1.p': {detail}")
+            else:
+                run.note(f"known finding C19-name-collision no longer reproduces ({detail}): if fixes/C19-name-fn.diff was applied run tools/c19_switch.py repaired <commit>")
+        elif rep_ok:
+            run.note("name collision reproduces but known_findings.json has no entry C19-name-collision (run tools/mkmanifest.py)")
             run.known("C19-name-collision", f"keys 1 and '1' share the file '1.p': {detail}")
-        else:
-            run.note(f"known finding C19-name-collision no longer reproduces ({detail})")
-    elif rep_ok:
-        run.note("name collision reproduces but known_findings.json has no entry C19-name-collision (run tools/mkmanifest.py)")
-        run.known("C19-name-collision", f"keys 1 and '1' share the file '1.p': {detail}")
-    if rep_ok:
-        # the model shows the same behaviour (both keys mapped to one name id)
-        cctx = Ctx(COLLISION_CFG, col_reps[0], col_reps[1])
-        text, _ = coq_case(cctx, [(p1[-1][1], col_reps[1])])
-        coq_cases.append(("K-collision/clean", text))
+        if rep_ok:
+            # the model shows the same behaviour (both keys mapped to one name id)
+            cctx = Ctx(COLLISION_CFG, col_reps[0], col_reps[1])
+            text, _ = coq_case(cctx, [(p1[-1][1], col_reps[1])])
+            coq_cases.append(("K-collision/clean", text))
+    elif "C19-name-collision" in known:
+        run.note("ExpectedFacts.v says NameRepr but known_findings.json still lists C19-name-collision (run tools/c19_switch.py repaired <commit>)")
 
     # ---- phase 2: kill, rerun, rerun ------------------------------------------------------------
     groups: list[tuple[int, dict, list[dict]]] = []
@@ -836,7 +1005,7 @@ def _check_body(run: Run, rng, root: Path, thorough: bool, n_drivers: int, proof
         run.count_case((meta, cfgs[ci]["name"]), nontrivial=killed)
         if not killed:
             not_killed += 1
-            if meta["mode"] in ("seq", "pool-exit"):
+            if meta["mode"] in ("seq", "pool-exit", "seq-buffered", "pool-exit-buffered"):
                 run.broken_correspondence.append(f"{cfgs[ci]['name']}: planned kill at {meta['point']} was never reached (event structure of the run is not reproducible)")
         if bad:
             violation(f"{cfgs[ci]['name']}: {bad}", cfgs[ci], scs, meta)
@@ -857,8 +1026,21 @@ def _check_body(run: Run, rng, root: Path, thorough: bool, n_drivers: int, proof
 
     # ---- correspondence inside Coq --------------------------------------------------------------
     files = {f"c19_{k:03d}": corr_file([t for _, t in chunk]) for k, chunk in enumerate(common.chunks(coq_cases, 150))}
+    nkeys = list(name_cases)
+    if nkeys:
+        files["c19names"] = names_file([name_cases[k] for k in nkeys])
     res = common.coq_eval_many(AREA, files, timeout_s=600)
     mism = 0
+    if nkeys:
+        ok, out = res["c19names"]
+        lists = common.parse_eval_list(out) if ok else None
+        if not ok or not lists:
+            run.broken_correspondence.append(f"name-function correspondence did not evaluate: {out[-300:]}")
+        else:
+            for j in lists[-1][:5]:
+                run.broken_correspondence.append(f"default name function: model and implementation disagree on key {nkeys[j][0]} (file in use: {nkeys[j][1]!r})")
+            run.coverage["names_validated_against_impl"] = len(nkeys) - len(lists[-1])
+        del files["c19names"]
     for k, name in enumerate(sorted(files)):
         ok, out = res[name]
         lists = common.parse_eval_list(out) if ok else None
@@ -890,6 +1072,7 @@ def replay(rep: dict) -> int:
         print("nothing to replay:", rep.get("what"))
         return 1
     cfg = r["config"]
+    NAME_MODE[0] = expected_name_kind()
     root = common.scratch_dir("c19replay")
     try:
         base = phase1_group(cfg, root, 0)
